@@ -260,7 +260,7 @@ def sensor_check(chk):
             ok = ok and v == 0
             dist["all failed"] += 1
         if not ok:
-            bad.append((seq, v, dur))
+            bad.append((seq, v, dur, lo, hi))
         try:
             num, den, ms = (int(x) for x in m.split())
         except ValueError:
@@ -292,9 +292,31 @@ def sensor_check(chk):
     chk.correspondence("TankSensorDevice.value respects low_readings_read_low / high_readings_read_high (failed attempts never move the level across a threshold)", nlow + nhigh, len(crossed),
                        distribution={"all readings below a threshold": nlow, "all readings at or above a threshold": nhigh}, detail=crossed[:3] or None)
     for b in crossed[:1]:
-        chk.violation("tank-sensor-threshold-crossed", f"TankSensorDevice.value gave {b[4]} for ADC pattern {b[0]} (calibration {b[1]}..{b[2]}, threshold {b[3]} %): {b[5]}", {"kind": "sensor", "pattern": b[0]})
+        chk.violation("tank-sensor-threshold-crossed", f"TankSensorDevice.value gave {b[4]} for ADC pattern {b[0]} (calibration {b[1]}..{b[2]}, threshold {b[3]} %): {b[5]}", {"kind": "sensor", "pattern": b[0], "low": b[1], "high": b[2], "threshold": b[3]})
     for b in bad[:1]:
-        chk.violation("tank-sensor-dead-adc", f"TankSensorDevice.value gave {b[1]} after {b[2]} s for ADC pattern {b[0]}", {"kind": "sensor", "pattern": b[0]})
+        chk.violation("tank-sensor-dead-adc", f"TankSensorDevice.value gave {b[1]} after {b[2]} s for ADC pattern {b[0]}", {"kind": "sensor", "pattern": b[0], "low": b[3], "high": b[4]})
+
+
+def replay_sensor(rp):
+    """re-run one ADC pattern on the REAL TankSensorDevice: 1 = the reading still breaks the sensor contract"""
+    seq, lo, hi = rp["pattern"], rp.get("low", 83), rp.get("high", 1665)
+    p = subprocess.run(["/venv/bin/python", "-c", _SENSOR_CODE], input=json.dumps([[seq, lo, hi]]), capture_output=True, text=True, timeout=600, env={**os.environ, "POUPOOL_REPO": REPO})
+    res = [json.loads(line[7:]) for line in p.stdout.split("\n") if line.startswith("RESULT ")]
+    if not res:
+        print((p.stdout + p.stderr)[-800:])
+        return 2
+    v, dur = res[0][0]
+    good = [x for x in seq if x is not None]
+    print("pattern", seq, "calibration", lo, hi, "-> value", v, "after", dur, "s")
+    fail = not 0 <= v <= 100 or dur > 5.0 + 1e-6 or (not good and v != 0)
+    for pct in ([rp["threshold"]] if "threshold" in rp else (10, 20, 40, 50, 80, 100)):
+        if good and all((g - lo) * 100 + 100 <= pct * (hi - lo) for g in good) and not v < pct:
+            print(f"every successful reading is below the raw count of {pct} %, the value is not")
+            fail = True
+        if good and all(pct * (hi - lo) <= (g - lo) * 100 for g in good) and not v >= pct - 1e-9:
+            print(f"every successful reading is at or above the raw count of {pct} %, the value is below")
+            fail = True
+    return 1 if fail else 0
 
 
 def latency_monitor(chk):
